@@ -104,6 +104,24 @@ Theorem C17_kill_kills_group_basic : forall b s i c s' o,
 Proof. exact basic_kill_kills_group. Qed.
 Print Assumptions C17_kill_kills_group_basic.
 
+(* a basic task never has two commands at once (repair of C17-l): START is refused while the
+   previous command has not been waited for ... *)
+Theorem C17_start_refused_while_running : forall b s s' o,
+  b_crashed s = false -> b_active s = true -> cmd_unreaped s = true ->
+  bstep b false s (AReq RStart) = (s', o) -> s' = s /\ o = [OResp RStart false].
+Proof. exact basic_start_refused. Qed.
+Print Assumptions C17_start_refused_while_running.
+
+(* ... so that, whatever the history (repeated STARTs and STOPs, children leaving, any schedule),
+   every command but the last one has been waited for, and once the task has been killed none of
+   the processes started for it is running *)
+Theorem C17_killed_basic_leaves_nothing_running : forall b l,
+  let s := fst (brun b false binit l) in
+  abl (b_children s) = true /\
+  (b_launched s = true -> b_active s = false -> forallb not_run (b_children s) = true).
+Proof. exact basic_killed_leaves_nothing_running. Qed.
+Print Assumptions C17_killed_basic_leaves_nothing_running.
+
 (* hook tasks are left alone by KILL, by design of the executor (a hook may be triggered after
    KILL and is bounded by its own timeout): the clause fails for them (recorded, C17-b) *)
 Definition C17_kill_no_survivor_hook_statement : Prop := forall b l,
@@ -182,6 +200,8 @@ Example C17_nonvacuous :
   existsb child_live (b_children (fst (brun fkbeh false binit
      [ALaunch; ATimer; AReq RStart; AExit 0; AReap 0; AReq RStop]))) = false /\
   c_gc (fst (crun fbeh cinit [ALaunch; ADialOk; APollReady; AKill; AKillStep; AKillStep; AKillStep])) = false /\
+  existsb child_live (b_children (fst (brun nbeh false binit
+     [ALaunch; ATimer; AReq RStart; AReq RStart; AReq RStop; AKill]))) = false /\
   (let '(s, t) := crun nbeh cinit [ALaunch; ADialOk; APollTick; AKill; APollTick; AReap 0; AKillStep] in
    statuses t = [KILLED] /\ c_kpc s = KFin) /\
   (* its normal life *)
